@@ -168,6 +168,9 @@ struct Session {
     /// with `run_handler`: the handler's k-th call PANICS; the unwinding is caught by the caller, the terminal is then
     /// dropped as usual (every exit path includes this one in Rust: Drop runs the same code)
     handler_panics: bool,
+    /// `duplicate_output` (debugging copy of everything sent): 1 = a file that can be written, 2 = /dev/full (the copy fails as
+    /// soon as its 8 KiB buffer is flushed; the poll that notices returns the error, the application releases the terminal)
+    tee: u8,
     /// selects the line settings installed on the pty before the terminal is opened
     termios: u64,
     /// the peer answers the size queries, so that the terminal takes its size from escape sequences
@@ -182,7 +185,7 @@ impl Session {
         json!({
             "steps": self.steps.iter().map(|s| s.token()).collect::<Vec<_>>(),
             "drop_at": self.drop_at, "run_handler": self.run_handler.map(|(k, q)| json!([k, q])),
-            "termios": self.termios.to_string(), "size_esc": self.size_esc, "render": self.render, "handler_panics": self.handler_panics, "high_fd": self.high_fd, "label": self.label,
+            "termios": self.termios.to_string(), "size_esc": self.size_esc, "render": self.render, "handler_panics": self.handler_panics, "tee": self.tee, "high_fd": self.high_fd, "label": self.label,
         })
     }
     fn from_json(v: &Value) -> Option<Session> {
@@ -194,6 +197,7 @@ impl Session {
             size_esc: v["size_esc"].as_bool().unwrap_or(false),
             render: v["render"].as_bool().unwrap_or(false),
             handler_panics: v["handler_panics"].as_bool().unwrap_or(false),
+            tee: v["tee"].as_u64().unwrap_or(0) as u8,
             high_fd: v["high_fd"].as_i64().map(|n| n as i32),
             label: v["label"].as_str().unwrap_or("replay").to_string(),
         })
@@ -840,6 +844,8 @@ struct Runner {
     injected_panic: bool,
     /// a payload too large to be replayed through the model was written: the session is judged by the oracle only
     big_output: bool,
+    /// the debugging copy goes to /dev/full: a poll error is the expected consequence, not a reason to put the session aside
+    tee_full: bool,
     /// the session wants to drop the terminal while the peer does not read
     keep_stalled: bool,
     req: String,
@@ -959,7 +965,7 @@ impl Runner {
             }
             Err(e) => {
                 self.poll_failed = true;
-                if !self.hung_up && self.out.inconclusive.is_none() {
+                if !self.hung_up && !self.tee_full && self.out.inconclusive.is_none() {
                     self.out.inconclusive = Some(format!("poll-error:{e:?}"));
                 }
             }
@@ -1378,6 +1384,12 @@ fn run_session(s: &Session) -> Outcome {
         }
     }
     let _ = verif_c17::take_trace();
+    let tee_path = std::env::temp_dir().join(format!("c17-tee-{}", std::process::id()));
+    match s.tee {
+        1 => { let _ = term.duplicate_output(&tee_path); }
+        2 => { let _ = term.duplicate_output("/dev/full"); }
+        _ => {}
+    }
     let size_esc = verif_c17::size_from_escape(&term);
     let saved = verif_c17::saved_termios(&term);
     let before_tok = before.as_ref().map(|w| words_token(w)).unwrap_or("none".into());
@@ -1387,7 +1399,7 @@ fn run_session(s: &Session) -> Outcome {
         keys_tx, typed, typist_pending, master_closed, in_poll: Arc::new(Mutex::new(InPoll { since: None })),
         stuck: Arc::new(AtomicBool::new(false)), session_thread: unsafe { libc::pthread_self() },
         keys_seen: vec![], wake_events: vec![], resize_events: vec![], term_raised: None, quit_seen: false,
-        hung_up: false, poll_failed: false, input_log: vec![], frames_dropped: false, sizes: vec![(rows0, cols0)], sent: sent0, injected_panic: false, big_output: false, keep_stalled: s.label.contains("stalled"),
+        hung_up: false, poll_failed: false, input_log: vec![], frames_dropped: false, sizes: vec![(rows0, cols0)], sent: sent0, injected_panic: false, big_output: false, tee_full: s.tee == 2, keep_stalled: s.label.contains("stalled"),
         req: format!("c17 s o:{before_tok}:1111 z:{}", if size_esc { 1 } else { 0 }),
         exp: vec![format!("saved={}/5", words_token(&saved)), "q0/0e0".into()],
         out: outcome,
@@ -1726,7 +1738,9 @@ fn run_session(s: &Session) -> Outcome {
         }
     }
     // the bytes the renderer queues are not known to the harness: render sessions are judged by the oracle only
-    out.trace = if s.render || big_output { None } else { Some((req, exp.join(" "))) };
+    let _ = std::fs::remove_file(&tee_path);
+    // (a failing copy leaves the chunk in the queue after the tty took it — not part of the model: oracle only)
+    out.trace = if s.render || big_output || s.tee == 2 { None } else { Some((req, exp.join(" "))) };
     out
 }
 
@@ -1737,7 +1751,7 @@ fn keys(rng: &mut Rng, n: usize) -> Vec<u8> {
 }
 
 fn sess(label: &str, steps: Vec<Step>, termios: u64) -> Session {
-    Session { steps, drop_at: None, run_handler: None, render: false, handler_panics: false, termios, size_esc: termios % 5 == 0,
+    Session { steps, drop_at: None, run_handler: None, render: false, handler_panics: false, tee: 0, termios, size_esc: termios % 5 == 0,
         high_fd: match termios % 8 { 1 | 2 => Some(40 + (termios / 8 % 24) as i32), 3 => Some(64 + (termios / 8 % 200) as i32), _ => None },
         label: label.to_string() }
 }
@@ -1818,6 +1832,14 @@ fn fixed_sessions(rng: &mut Rng) -> Vec<Session> {
     v.push(at_end("modes-cleanup-in-dropped-frame", [modes_on(), vec![Write(10, 1), Flush], cleanup()].concat(), rng));
     v.push(at_end("modes-cleanup-behind-backlog", [modes_on(), vec![PeerPause, Write(200_000, 2), Flush, ms(2)], cleanup()].concat(), rng));
     v.push(at_end("modes-cleanup-sent", [modes_on(), cleanup(), vec![Flush, ms(5)]].concat(), rng));
+    // debugging copy of the output (`duplicate_output`): to a file; to /dev/full with little output (the copy stays in its buffer);
+    // to /dev/full with more than the 8 KiB buffer in small frames: the poll that flushes the copy fails AFTER the tty took its frame, the
+    // application releases the terminal with one small frame still queued (what is left fits into one tty write: with a large frame
+    // left over, upstream itself does not get the closing sequence out — see level_note)
+    v.push(Session { tee: 1, ..at_end("tee-file", [modes_on(), vec![Write(20_000, 6), Flush, ms(10), z()]].concat(), rng) });
+    v.push(Session { tee: 2, ..at_end("tee-full-short", modes_on(), rng) });
+    v.push(Session { tee: 2, ..at_end("tee-full-after-error", [modes_on(), vec![Write(3000, 7), Flush, ms(5), Write(3000, 8), Flush, ms(5),
+        Write(3000, 9), Flush, ms(5), z()]].concat(), rng) });
     // the application's own sync report is still queued when the terminal is released (key and report came in one read)
     v.push(at_end("stale-sync-report-at-drop", [modes_on(), vec![SyncDA(b"q".to_vec()), ms(20)]].concat(), rng));
     // one frame of 6 MB in flight (only its beginning accepted by the tty) when the terminal is released; controls 1 and 3 MB
